@@ -26,6 +26,8 @@ From TV Require Import Dispatch.Sched_Proofs_Emit.
 From TV Require Import Dispatch.Sched_Proofs_Main.
 From TV Require Import Dispatch.Sched_Examples.
 From TV Require Import Dispatch.Sched_World.
+From TV Require Import Dispatch.Sched_Points.
+From TVGen Require Import Gen_sched_points.
 Import ListNotations.
 
 (** ** No thread deadlocks: in every reachable state with an unfinished thread some thread can move.
@@ -141,6 +143,14 @@ Theorem C04_quiescent_fields :
 Proof. exact QInv_fields. Qed.
 Print Assumptions C04_quiescent_fields.
 
+(** at quiescence a callsite is in the registry's list iff its registration state is REGISTERED (nobody is left in
+    REGISTERING, so no later emission falls back to `sometimes` forever) *)
+Theorem C04_quiescent_registered :
+  forall W progs s, reachable (step W) (init progs) s -> finished s = true ->
+  forall cs, In cs (st_list s) <-> st_reg s cs = Registered.
+Proof. exact quiescent_registered. Qed.
+Print Assumptions C04_quiescent_registered.
+
 (** ** Every registered callsite was offered (register_callsite was called) to every collector that has completed
     Dispatch::new and is live — in every reachable state, hence to every collector live afterwards. *)
 Theorem C04_offered :
@@ -184,3 +194,15 @@ Print Assumptions C04_worlds_wf.
 Theorem C04_example_world_wf : WFworld WX.
 Proof. exact WX_wf. Qed.
 Print Assumptions C04_example_world_wf.
+
+(** ** Static tie to the instrumented sources (regenerated from /repo on every run by translators/sched_points.py): the
+    yield points found in callsite.rs / metadata.rs / dispatch.rs / tracing's lib.rs / reload.rs are exactly the yield points of
+    the model's program points, and every function hosts the ids the model's step order expects (empty tables = a repository
+    without the hooks: the forced-schedule part is then skipped and recorded as skipped). *)
+Theorem C04_source_points : gen_yield_ids = [] \/ gen_yield_ids = model_yield_ids.
+Proof. exact source_points. Qed.
+Print Assumptions C04_source_points.
+
+Theorem C04_source_sites : gen_yield_sites = [] \/ gen_yield_sites = expected_sites.
+Proof. exact source_sites. Qed.
+Print Assumptions C04_source_sites.
